@@ -243,12 +243,11 @@ func (p *RangeScanPlan) Init() (err error) {
 		return err
 	}
 	if p.Start != nil {
-		err = p.iter.Seek(p.Start)
-		if err != nil {
-			return err
-		}
+		return p.iter.Seek(p.Start)
 	}
-	return nil
+	// Open below: start at the first key, as the full scan does (a new
+	// cursor need not be positioned before its first Seek)
+	return p.iter.Seek([]byte{})
 }
 
 func (p *RangeScanPlan) Next(ctx *ExecuteCtx) ([]byte, []byte, error) {
